@@ -19,7 +19,7 @@ import math, json, fractions
 LOG_INCOMPLETE = {}   # class -> transmissions not written to the optional infection log (reported in the evidence, not a failure)
 import numpy as np
 from harness import impl
-from harness.props import c12_extra
+from harness.props import c12_extra, c12_groups
 
 PROP = 'C12'
 GENERATED = ['TransmissionFacts']
@@ -105,6 +105,8 @@ def gen_cfg(rng, family=None):
         nets.append(dict(type=rng.choice(['random', 'mf']), n_contacts=3, dur=0, duration=2))
     if family == 'pool':
         grp = ['all', 'male', 'female', 'under30', 'over30', 'uids_lo', 'uids_hi', 'uids_mid']   # callables and explicit uid lists
+        for lo, hi in ((0, 15), (15, None), (20, 50), (0, 40)):     # ss.AgeGroup objects, every cache setting
+            grp.append(dict(age=[lo, hi], do_cache=rng.choice([None, True, False])))
         nets.append(dict(type='pool', src=rng.choice(grp), dst=rng.choice(grp), beta=rng.choice([0.0, 0.2, 0.6, 1.0]),
                          timepar=rng.random() < 0.5, contacts=rng.choice([0.5, 1, 3]), n_agents=n_agents))
         if rng.random() < 0.6:
@@ -117,6 +119,9 @@ def gen_cfg(rng, family=None):
         if rng.random() < 0.5: dem.append(dict(type='deaths', death_rate=rng.choice([10, 40])))
     elif family == 'pool' and any(str(n.get('src', '')).startswith('uids_') or str(n.get('dst', '')).startswith('uids_') for n in nets) and rng.random() < 0.8:
         dem = [dict(type='deaths', death_rate=rng.choice([40, 80, 150]))]   # fixed uid groups must shed their dead
+    elif family == 'pool' and any(c12_groups.is_age(n.get('src')) or c12_groups.is_age(n.get('dst')) for n in nets) and rng.random() < 0.8:
+        dem = [dict(type='births', birth_rate=rng.choice([30, 60])), dict(type='deaths', death_rate=rng.choice([20, 50]))]   # band membership must move
+        cfg['dt'] = rng.choice([1.0, 2.0, 5.0])
     elif family == 'churn' or (family in ('pool', 'sexual', 'mixed') and rng.random() < 0.4):
         dem = rng.choice([[dict(type='deaths', death_rate=rng.choice([20, 60]))],
                           [dict(type='births', birth_rate=rng.choice([30, 80])), dict(type='deaths', death_rate=rng.choice([20, 60]))],
@@ -185,9 +190,11 @@ GROUPS = dict(
 )
 
 
-def pool_group(name, n_agents):
-    """ a group given as a callable (re-evaluated each step) or as an explicit uid list fixed at construction """
+def pool_group(name, n_agents, shared=None):
+    """ a group given as a callable (re-evaluated each step), an ss.AgeGroup object, or an explicit uid list fixed at construction """
     import starsim as ss
+    if c12_groups.is_age(name):
+        return c12_groups.mk_group(name, n_agents, shared if shared is not None else {}, None)
     if name.startswith('uids_'):
         n = int(n_agents or 40)
         lo, hi = dict(uids_lo=(0, n // 2), uids_hi=(n // 2, n), uids_mid=(n // 4, 3 * n // 4))[name]
@@ -201,12 +208,12 @@ def mk_network(n):
     if t == 'pool':
         beta = ss.beta(n['beta']) if n.get('timepar') and n['beta'] <= 1 else n['beta']
         kw = dict(diseases=n['diseases']) if n.get('diseases') else {}
-        return ss.MixingPool(src=pool_group(n['src'], n.get('n_agents')), dst=pool_group(n['dst'], n.get('n_agents')), beta=beta,
+        shared = {}
+        if n.get('name'): kw['name'] = n['name']     # several pools in one sim need distinct names
+        return ss.MixingPool(src=pool_group(n['src'], n.get('n_agents'), shared), dst=pool_group(n['dst'], n.get('n_agents'), shared), beta=beta,
                              contacts=ss.poisson(lam=n['contacts']), **kw)
     if t == 'pools':     # MixingPools (plural): a rectangular array of pools between two age groups
-        a = n.get('split', 15)
-        grp = lambda: {'young': ss.AgeGroup(0, a), 'old': ss.AgeGroup(a, None)}
-        return ss.MixingPools(beta=n['beta'], src=grp(), dst=grp(), contacts=n['contacts'])
+        return c12_groups.mk_pools(n)
     if t == 'prenatal': return ss.PrenatalNet()
     if t == 'postnatal': return ss.PostnatalNet()
     if t == 'hub':       # static bipartite graph: few low-uid hubs joined to everybody else (edges come out sorted by p1)
@@ -288,6 +295,20 @@ class Recorder:
         self.cur = None; self.curpool = None; self.pool_obj = None; self.in_step = None
         self.pdepth = 0
         self.undo = []
+        self.specs = {}       # id(MixingPool) -> (src spec, dst spec, n_agents) from the configuration
+        self.agcalls = []     # every AgeGroup.__call__ in order
+        self.agslots = {}; self.agobjs = []
+
+    def agslot(self, g):
+        if id(g) not in self.agslots:
+            self.agslots[id(g)] = len(self.agobjs); self.agobjs.append(g)
+        return self.agslots[id(g)]
+
+    def people(self, sim):
+        ppl = sim.people
+        au = np.asarray(ppl.auids).astype(int)
+        n = int(ppl.uid.len_used)
+        return dict(au=au, n=n, age=self.scatter(ppl.age, au, n, np.float64), female=self.scatter(ppl.female, au, n, bool))
 
     # -- helpers
     @staticmethod
@@ -391,6 +412,11 @@ class Recorder:
             au = np.asarray(mp.sim.people.auids).astype(int)
             n = int(mp.sim.people.uid.len_used)
             rec['contacts'] = R.scatter(mp.eff_contacts, au, n, np.float64)
+            rec['people'] = R.people(mp.sim)
+            rec['sti'] = int(mp.sim.ti)
+            rec['spec'] = R.specs.get(id(mp))
+            rec['agcalls'] = []
+            rec['grp_slot'] = [R.agslot(g) if isinstance(g, ss.AgeGroup) else None for g in (mp.pars.src, mp.pars.dst)]
             R.curpool = rec; R.pool_obj = mp
             logs0 = {d.name: set(d.log.edges(keys=True)) for d in mp.diseases if d.pars.get('log')}
             try:
@@ -411,6 +437,19 @@ class Recorder:
                 R.curpool['ppf'].append(dict(r=np.array(rands, dtype=np.float64), p=np.array(dist._pars.p, dtype=np.float64),
                                              acc=np.array(out).astype(bool)))
             return out
+
+        orig_ag = ss.AgeGroup.__call__
+        def w_ag(g, sim):
+            out = orig_ag(g, sim)
+            if R.running:
+                ppl = sim.people
+                e = dict(slot=R.agslot(g), ti=int(sim.ti), au=np.asarray(ppl.auids).astype(int),
+                         age=np.asarray(ppl.age[ppl.auids], dtype=np.float64), out=np.asarray(out).astype(int))
+                R.agcalls.append(e)
+                if R.curpool is not None:
+                    R.curpool['agcalls'].append(e)
+            return out
+        patch(ss.AgeGroup, '__call__', w_ag)
 
         patch(ss.Infection, 'infect', w_infect)
         patch(ss.Infection, 'compute_transmission', staticmethod(w_kernel))
@@ -465,6 +504,14 @@ def run_recorded(cfg):
         np.random.seed(cfg['rand_seed'])
         sim = build(cfg)
         sim.init()
+        for n, route in zip(cfg['networks'], sim.networks.values()):
+            for mp, ssrc, sdst, na in c12_groups.route_specs(n, route):
+                R.specs[id(mp)] = (ssrc, sdst, na)
+                for spec, g in ((ssrc, mp.pars.src), (sdst, mp.pars.dst)):
+                    if c12_groups.is_age(spec):
+                        R.agspecs = getattr(R, 'agspecs', {})
+                        R.agspecs[R.agslot(g)] = spec
+        R.sim = sim
         R.running = True
         for _ in range(cfg['npts']):
             sim.run_one_step()
@@ -609,7 +656,7 @@ def compare_infect(ctx, cfg, rec, out):
     return None
 
 
-def pool_lines(rec):
+def pool_lines(rec, agslots=None):
     """ one `state` + `pool` line pair per disease iteration that reached the Bernoulli filter """
     lines = []; idx = []
     dst = rec['dst']
@@ -621,21 +668,56 @@ def pool_lines(rec):
             r = np.zeros(len(dst))
         if len(r) != len(dst):
             continue
+        off = len(lines)
         lines.append(f"state {bits(pre['sus'])} {bits(pre['inf'])} {enc_list(pre['rs'])} {enc_list(pre['rt'])}")
         lines.append(f"pool {enc(rec['beta'])} {nat_list(rec['src'])} {nat_list(dst)} {enc_list(rec['contacts'][dst] if len(dst) else [])} {enc_list(r)}")
-        idx.append((k, dn))
+        offg = None
+        if not idx and rec.get('spec') is not None and agslots is not None:
+            # the same step from the group PARAMETERS: the model resolves the groups itself (AgeGroup objects keep their
+            # cache in driver slots, shared objects share a slot) on the recorded population
+            ssrc, sdst, na = rec['spec']
+            ppl = rec['people']
+            toks = []
+            for spec, slot in zip((ssrc, sdst), rec['grp_slot']):
+                if c12_groups.is_age(spec):
+                    sl = 1000 + (slot if slot is not None else 999)
+                    if sl not in agslots:
+                        agslots.add(sl)
+                        lo, hi = spec['age']
+                        dc = spec.get('do_cache')
+                        lines.append(f"agnew {sl} {enc(lo)} {'-' if hi is None else enc(hi)} {0 if dc is False else 1}")
+                    toks.append(c12_groups.group_token(spec, ppl, na, sl))
+                else:
+                    toks.append(c12_groups.group_token(spec, ppl, na, None))
+            rr = np.zeros(ppl['n']); rr[dst] = r
+            offg = len(lines)
+            lines.append(f"poolg {enc(rec['beta'])} {toks[0]} {toks[1]} {rec['sti']} {nat_list(ppl['au'])} {enc_list(ppl['age'][ppl['au']])} "
+                         f"{enc_list(rec['contacts'][:ppl['n']])} {enc_list(rr)}")
+        idx.append((k, dn, off, offg))
     return lines, idx
 
 
 def compare_pool(ctx, rec, idx, out):
     progs = [e for e in rec['prog'] if e['kind'] == 'set_prognoses']
     executed = len(rec['ppf'])
-    for j, (k, dn) in enumerate(idx):
-        line = out[2 * j + 1]
-        if line == 'bad-op' or out[2 * j] == 'bad-op':
+    for j, (k, dn, off, offg) in enumerate(idx):
+        line = out[off + 1]
+        if line == 'bad-op' or out[off] == 'bad-op' or any(o == 'bad-op' for o in out[off:(offg or off) + 1]):
             return dict(why='model rejected a pool line')
         m = parse_kv(line)
         mc = [int(x) for x in m['C']]
+        if offg is not None:
+            g = parse_kv(out[offg])
+            ssrc, sdst, na = rec['spec']
+            for side, key, spec, code in (('source', 'SRC', ssrc, rec['src']), ('destination', 'DST', sdst, rec['dst'])):
+                mg = [int(x) for x in g[key]]
+                if mg != [int(x) for x in code]:
+                    diff = sorted(set(mg) ^ set(int(x) for x in code))[:8]
+                    return dict(why=f"pool {rec['pool']} step {rec['sti']}: the model resolves the {side} parameter {c12_groups.describe(spec)} to {len(mg)} agents, "
+                                    f"MixingPool.step used {len(code)} (differing uids {diff})")
+            if [int(x) for x in g['C']] != mc:
+                return dict(why=f"pool {rec['pool']}/{dn}: poolStepG from the parameters gives cases {g['C'][:10]}, poolStep on the code's groups {mc[:10]}")
+            ctx.count('pool_steps_from_parameters')
         if k >= executed:
             # the code returned before the disease loop (beta == 0 or an empty group): the model must agree
             if mc:
@@ -810,6 +892,48 @@ def unit_boundary(ctx):
         ctx.broke('correspondence', 'C12.kernel-boundary', f'compute_transmission on r == p / p == 0 boundary edges: model `{out[3][:160]}` code `{got[:160]}`', data=dict(kind='boundary'))
 
 
+def agcall_lines(calls, spec_of, base=0):
+    """ driver lines replaying AgeGroup.__call__ sequences: `agnew` at the first call of an object, then one `agcall` per call """
+    lines = []; idx = []; seen = set()
+    for c in calls:
+        sl = base + c['slot']
+        if sl not in seen:
+            seen.add(sl)
+            lo, hi, dc = spec_of(c)
+            lines.append(f"agnew {sl} {enc(lo)} {'-' if hi is None else enc(hi)} {0 if dc is False else 1}")
+        idx.append(len(lines))
+        lines.append(f"agcall {sl} {c['ti']} {nat_list(c['au'])} {enc_list(c['age'])}")
+    return lines, idx
+
+
+def compare_agcalls(ctx, calls, lines, idx, out, what, data):
+    for c, i in zip(calls, idx):
+        o = out[i]
+        m = parse_kv(o) if o != 'bad-op' and o.startswith('U=') else None
+        ctx.count('agegroup_calls_compared')
+        if m is None or [int(x) for x in m['U']] != c['out'].tolist():
+            mu = None if m is None else [int(x) for x in m['U']]
+            diff = sorted(set(mu or []) ^ set(c['out'].tolist()))[:8]
+            ctx.broke('correspondence', 'C12.agegroup', f"{what}: AgeGroup slot {c['slot']} called at ti={c['ti']} returned {len(c['out'])} agents, the model "
+                      f"{'rejected the line' if mu is None else f'returns {len(mu)}'} (differing uids {diff})", data=data)
+            return False
+    return True
+
+
+def unit_agegroup(ctx):
+    """ real ss.AgeGroup objects (default / do_cache=True / do_cache=False) called after steps, repeatedly within a step and
+        after ages were edited within a step, vs AgeGroup.call of the model """
+    for j in range(ctx.budget(2, 8)):
+        seed = ctx.seed * 100 + j
+        calls = c12_groups.agegroup_trace(seed, 40)
+        lines, idx = agcall_lines(calls, lambda c: (c['low'], c['high'], c['do_cache']))
+        out = ctx.drive(DRIVER, lines)
+        ctx.case(('agegroup', tuple(lines)), nontrivial=len({tuple(c['out'].tolist()) for c in calls}) > 3,
+                 sample=dict(kind='agegroup', calls=len(calls), steps=len({c['ti'] for c in calls})))
+        if not compare_agcalls(ctx, calls, lines, idx, out, f'direct calls (trace {seed})', dict(kind='agegroup', seed=seed, nops=40)):
+            return
+
+
 def parse_rat_enc(s):
     if '@' in s:
         m, e = s.split('@'); return fractions.Fraction(int(m), 2 ** int(e))
@@ -824,6 +948,7 @@ def correspond(ctx):
     unit_validate(ctx)
     unit_unique(ctx)
     unit_boundary(ctx)
+    unit_agegroup(ctx)
     nsims = ctx.budget(14, 110)
     fams = ['plain', 'sexual', 'maternal', 'pool', 'mixed', 'churn']
     stats = dict(infect_calls=0, kernel_calls=0, edges=0, transmissions=0, pool_steps=0, pool_cases=0)
@@ -839,6 +964,7 @@ def correspond(ctx):
         ctx.count('sims'); ctx.count('family_' + cfg['family'])
         for d in cfg['diseases']: ctx.count('disease_' + d['type'])
         lines = []; index = []
+        agslots = set()
         for rec in R.infects:
             err = attach_calls(rec)
             if err:
@@ -847,13 +973,22 @@ def correspond(ctx):
             ls = infect_lines(rec)
             index.append(('infect', rec, len(lines), len(ls))); lines += ls
         for rec in R.pools:
-            ls, idx = pool_lines(rec)
+            ls, idx = pool_lines(rec, agslots)
             index.append(('pool', (rec, idx), len(lines), len(ls))); lines += ls
+        agspecs = getattr(R, 'agspecs', {})
+        agc = [c for c in R.agcalls if c['slot'] in agspecs]
+        if agc:      # every AgeGroup.__call__ of the run, per object in order, against the model's cache automaton
+            ls, aidx = agcall_lines(agc, lambda c: (agspecs[c['slot']]['age'][0], agspecs[c['slot']]['age'][1], agspecs[c['slot']].get('do_cache')))
+            index.append(('agcalls', (agc, aidx), len(lines), len(ls))); lines += ls
         if not lines:
             continue
         out = ctx.drive(DRIVER, lines)
         for kind, rec, off, n in index:
             o = out[off:off + n]
+            if kind == 'agcalls':
+                if not compare_agcalls(ctx, rec[0], lines[off:off + n], rec[1], o, f"{cfg['family']} sim", dict(kind='sim', cfg=cfg)):
+                    return
+                continue
             if kind == 'infect':
                 div = compare_infect(ctx, cfg, rec, o)
                 ntrans = sum(len(c['t_out']) for c in rec['calls'])
@@ -1042,7 +1177,26 @@ def oracle_records(R, cfg):
             if len(cases) and rec['beta'] <= 0:
                 F('pool-zero', f'{tag}: infections with beta {rec["beta"]}')
             srcinf = [v for v in src.tolist() if v < pre['n'] and inf[v] and rt[v] > 0]
+            ppl = rec.get('people')
+            want_dst = None
+            if rec.get('spec') is not None and ppl is not None:
+                # the groups the PARAMETERS denote on the population of this step, re-derived from the configuration
+                ssrc, sdst, na = rec['spec']
+                agemap = lambda u: (round(float(ppl['age'][u]), 2) if u < ppl['n'] and u in set(ppl['au'].tolist()) else 'not active')
+                for side, spec, used in (('source', ssrc, src), ('destination', sdst, dst)):
+                    want = c12_groups.expected_group(spec, ppl, na)
+                    if side == 'destination': want_dst = set(want.tolist())
+                    if k == 0 and set(want.tolist()) != set(used.tolist()):
+                        extra = sorted(set(used.tolist()) - set(want.tolist()))[:4]; missing = sorted(set(want.tolist()) - set(used.tolist()))[:4]
+                        F('pool-group', f"{tag} (sim step {rec['sti']}): the {side} group used by MixingPool.step is not the group its parameter {c12_groups.describe(spec)} "
+                                        f"denotes now: wrongly included (uid, age) {[(u, agemap(u)) for u in extra]}, missing {[(u, agemap(u)) for u in missing]}", side=side)
+            active = set(ppl['au'].tolist()) if ppl is not None else None
             for u in cases.tolist():
+                if active is not None and u not in active:
+                    F('pool-target-active', f'{tag}: new case {u} is not an active agent'); break
+                if want_dst is not None and u not in want_dst:
+                    F('pool-destination', f"{tag}: new case {u} (age {float(ppl['age'][u]) if u < ppl['n'] else None!r}) does not belong to the destination group "
+                                          f"{c12_groups.describe(rec['spec'][1])} on this step"); break
                 if u not in set(dst.tolist()):
                     F('pool-destination', f'{tag}: new case {u} is not in the destination group'); break
                 if u >= pre['n'] or not sus[u]:
@@ -1159,6 +1313,12 @@ def search(ctx):
         ctx.fail(f['signature'], f['what'], dict(kind='boundary'))
     for f in oracle_unique():
         ctx.fail(f['signature'], f['what'], dict(kind='unique', arr=f['arr']))
+    for j in range(ctx.budget(3, 12)):      # real AgeGroup objects called directly: membership now, for every cache setting
+        seed = ctx.seed * 100 + 50 + j
+        fails, ncalls, skipped = c12_groups.oracle_agegroup(seed, 40)
+        ctx.count('agegroup_oracle_calls', ncalls); ctx.count('agegroup_cached_same_step_not_judged', skipped)
+        for f in fails:
+            ctx.fail(f['signature'], f['what'], dict(kind='agegroup', seed=seed, nops=40))
     n = ctx.budget(8, 60)
     fams = ['plain', 'sexual', 'maternal', 'pool', 'mixed', 'churn']
     ev = dict(events=0, kernel_calls=0, pool_cases=0)
@@ -1226,6 +1386,10 @@ def replay(ctx, data):
     if data.get('kind') == 'unique':
         fails = oracle_unique([data['arr']] if data.get('arr') is not None else None)
         for f in fails: print('  ', f['what'][:300])
+        return bool(fails)
+    if data.get('kind') == 'agegroup':
+        fails, _, _ = c12_groups.oracle_agegroup(data['seed'], data.get('nops', 40))
+        for f in fails: print('  ', f['signature'], f['what'][:300])
         return bool(fails)
     if data.get('kind') == 'sim' and data.get('precision'):
         res, err = c12_extra.run_precision([data['cfg']], data['precision'])
